@@ -12,6 +12,7 @@ global size_of usize == 8; // assumption: 64-bit target
 //@@include lemmas_list.rs
 //@@include spec_ops.rs
 //@@include lemmas_det.rs
+//@@include lemmas_excl.rs
 //@@include shim_sync.rs
 
 /// assumption (x86_64 / every 64-bit Rust target): u64 and AtomicU64 are 8 bytes, 8-aligned
@@ -434,7 +435,8 @@ impl Arena {
             lemma_wf_frame(self.av(), s2, st@, n.0 as int + 8, data_end_offset as int);
             lemma_first_idx_bounds(s1.list, seg_node(data_end_offset as int, remaining as int).1, asc_of(self.freelist));
             if seg_valid(s1, data_end_offset as int, remaining as int) { lemma_seg_node_props(self.av(), s1, data_end_offset as int, remaining as int); }
-            lemma_slow_free_shrinks(s0, st@, k, seg_valid(s1, data_end_offset as int, remaining as int), seg_node(data_end_offset as int, remaining as int),
+            assert(kept_in_free(s0, n.0 as int, node_end(n))) by { assert forall|b: int| n.0 as int <= b < node_end(n) implies #[trigger] in_free(s0, b) by { assert(in_node(l[k], b)); } }
+      lemma_slow_free_shrinks(s0, st@, k, seg_valid(s1, data_end_offset as int, remaining as int), seg_node(data_end_offset as int, remaining as int),
               first_idx(s1.list, seg_node(data_end_offset as int, remaining as int).1, asc_of(self.freelist)));
             assert(frame_ok(l, s0.bytes, st@.bytes, 0, 0)) by {
               assert forall|b: int| 0 <= b < s0.bytes.len() implies st@.bytes[b] == s0.bytes[b] || 0 <= b < 0 || #[trigger] in_list(l, b) by {
@@ -505,7 +507,8 @@ impl Arena {
             lemma_wf_frame(self.av(), s2, st@, n.0 as int + 8, data_end_offset as int);
             lemma_first_idx_bounds(s1.list, seg_node(data_end_offset as int, remaining as int).1, asc_of(self.freelist));
             if seg_valid(s1, data_end_offset as int, remaining as int) { lemma_seg_node_props(self.av(), s1, data_end_offset as int, remaining as int); }
-            lemma_slow_free_shrinks(s0, st@, k, seg_valid(s1, data_end_offset as int, remaining as int), seg_node(data_end_offset as int, remaining as int),
+            assert(kept_in_free(s0, n.0 as int, node_end(n))) by { assert forall|b: int| n.0 as int <= b < node_end(n) implies #[trigger] in_free(s0, b) by { assert(in_node(l[k], b)); } }
+      lemma_slow_free_shrinks(s0, st@, k, seg_valid(s1, data_end_offset as int, remaining as int), seg_node(data_end_offset as int, remaining as int),
               first_idx(s1.list, seg_node(data_end_offset as int, remaining as int).1, asc_of(self.freelist)));
             assert(frame_ok(l, s0.bytes, st@.bytes, 0, 0)) by {
               assert forall|b: int| 0 <= b < s0.bytes.len() implies st@.bytes[b] == s0.bytes[b] || 0 <= b < 0 || #[trigger] in_list(l, b) by {
